@@ -154,6 +154,21 @@ def bottomUpO (g : Node → Node) : Option Node → Option Node
   | some c => some (bottomUp g c)
 end
 
+/-- run state transformers one after the other, collecting the nodes they produce -/
+def seqS {σ : Type} : List (σ → Node × σ) → σ → List Node × σ
+  | [], s => ([], s)
+  | r :: rs, s =>
+    let (k, s1) := r s
+    let (ks, s2) := seqS rs s1
+    (k :: ks, s2)
+
+/-- bottom-up rewriting with state: the children left to right (threading the state), then `ex` on the
+    node rebuilt around the rewritten children -/
+def bottomUpS {σ : Type} (ex : Node → σ → Node × σ) : Node → σ → Node × σ :=
+  foldN fun n rs s =>
+    let (ks, s') := seqS rs s
+    ex (n.withChildren ks) s'
+
 /-! ### the complete walker -/
 
 section walkU
